@@ -707,7 +707,10 @@ class Tensor:
         return o, k
 
     def _bin(self, o, f, force_float=False):
-        oa, ok = self._operand(o)
+        try:
+            oa, ok = self._operand(o)
+        except TypeError:
+            return NotImplemented  # let the other operand's reflected method run
         k = _promote(self.dtype.kind, ok)
         if force_float and k in "bi":
             k = "f"
